@@ -1,7 +1,8 @@
 """C34 Fused functions dispatch to the matching specialisation (DESIGN.md section 5, C34).
 
-Generated fused declarations (numeric / Python-object / memoryview sets, 1-2 fused parameters; def, cpdef, cdef with
-typed callers) return (cython.typeof(x)..., value...). The reference module (vlib/ref/c34ref.py) implements the dispatch
+Generated fused declarations (numeric / Python-object / memoryview sets, 1-2 fused parameters, optionally inside a
+signature with non-fused parameters, default values and keyword-only parameters, called by position / keyword / default;
+def, cpdef, cdef with typed callers) return (cython.typeof(x)..., value...). The reference module (vlib/ref/c34ref.py) implements the dispatch
 rules of docs/src/userguide/fusedtypes.rst; where that text does not determine the choice the check accepts any
 specialisation that can represent the value (and records it), so only TypeError-vs-dispatch, unrepresentable choices and
 wrong values alarm. Explicit indexing and compile-time (cdef) dispatch are compared exactly."""
@@ -23,9 +24,35 @@ SETUP = 'import numpy as np\nimport array\nimport cython\n'
 
 
 class Decl:
-    def __init__(self, n, sets, params, cat, form):
+    def __init__(self, n, sets, params, cat, form, shape=None):
         self.n, self.sets, self.params, self.cat, self.form = n, sets, params, cat, form
         self.name = 'fz%dz' % n
+        # shape: None = the fused parameters only, all required (x, y); else the whole signature in order, a list of
+        # {'k': 'F', 'i': <index into params>, 'name', 'default': text|None, 'kwonly': bool} and
+        # {'k': 'P', 'name', 'ctype': ''|'double'|'long'|'str', 'default': text|None, 'kwonly': bool} (non-fused parameter)
+        self.shape = shape
+
+    def sigtext(self):
+        fn = self.fused_names()
+        if not self.shape:
+            return ', '.join('%s %s' % (fn[p], a) for p, a in zip(self.params, ['x', 'y']))
+        out = []
+        star = False
+        for it in self.shape:
+            if it['kwonly'] and not star:
+                out.append('*')
+                star = True
+            if it['k'] == 'F':
+                d = '%s %s' % (fn[self.params[it['i']]], it['name'])
+            else:
+                d = ('%s %s' % (it['ctype'], it['name'])).strip()
+            if it['default'] is not None:
+                d += '=' + it['default']
+            out.append(d)
+        return ', '.join(out)
+
+    def plain_names(self):
+        return [it['name'] for it in self.shape or () if it['k'] == 'P']
 
     def fused_names(self):
         return ['FT%d_%d' % (self.n, i) for i in range(len(self.sets))]
@@ -38,7 +65,8 @@ class Decl:
             out.append('')
         names = ['x', 'y'][:len(self.params)]
         fn = self.fused_names()
-        sigtext = ', '.join('%s %s' % (fn[p], a) for p, a in zip(self.params, names))
+        sigtext = self.sigtext()
+        plain = ''.join(', ' + a for a in self.plain_names())
         tags = ', '.join('cython.typeof(%s)' % a for a in names)
         body = []
         if self.cat == 'obj':
@@ -60,7 +88,7 @@ class Decl:
                 else:
                     body.append('    else:\n        v%s = len(%s)' % (a, a))
                 vals.append('v' + a)
-            ret = 'return (%s, %s)' % (tags, ', '.join(vals))
+            ret = 'return (%s, %s%s)' % (tags, ', '.join(vals), plain)
         elif self.cat == 'mv':
             vals = []
             for p, a in zip(self.params, names):
@@ -70,9 +98,9 @@ class Decl:
                 else:
                     body.append('    v%s = %s' % (a, desc))
                 vals.append('v' + a)
-            ret = 'return (%s, %s)' % (tags, ', '.join(vals))
+            ret = 'return (%s, %s%s)' % (tags, ', '.join(vals), plain)
         else:
-            ret = 'return (%s, %s)' % (tags, ', '.join(names))
+            ret = 'return (%s, %s%s)' % (tags, ', '.join(names), plain)
         kw = {'def': 'def', 'cpdef': 'cpdef', 'cdef': 'cdef'}[self.form]
         fname = self.name if self.form != 'cdef' else 'c_' + self.name
         out.append('%s %s(%s):' % (kw, fname, sigtext))
@@ -91,6 +119,8 @@ class Decl:
     def ref(self):
         if self.form == 'cdef':
             return '\n'.join('%s = RefTyped(%r, %r)' % (self.caller(t), self.cat, t) for t in self.sets[0]) + '\n'
+        if self.shape:
+            return '%s = RefFused(%r, %r, %r, %r)\n' % (self.name, self.sets, self.params, self.cat, self.shape)
         return '%s = RefFused(%r, %r, %r)\n' % (self.name, self.sets, self.params, self.cat)
 
     def signatures(self):
@@ -140,6 +170,75 @@ FIXED = [
 ]
 
 
+# ------------------------------------------------------------------------ signature shapes (non-fused parameters, defaults)
+PLAIN_DEFAULTS = {'': ["'d'", '0.5', '7', 'None', '1j', "b'b'"], 'double': ['0.5', '1.5'], 'long': ['9', '-4'], 'str': ["'dflt'"]}
+PLAIN_VALUES = {'': ["'lbl'", '7', '2.5', 'None', '[1]', '(1+2j)'], 'double': ['0.25', '3.0', '4'], 'long': ['5', '-3'], 'str': ["'s'"]}
+
+
+def fused_default_choices(S, cat):
+    """default values (texts) that every specialisation of the fused set S accepts at compile time; the run-time type of
+    the default decides the dispatch when the argument is left out"""
+    if cat == 'mv':
+        return ['None']
+    if cat == 'obj':
+        return ['None'] if all(t in c34ref.PYOBJ for t in S) else []
+    kinds = {c34ref.NUM[t][0] for t in S if t in c34ref.NUM}
+    if 'int' in kinds:
+        return ['2', '7', '0', '100']
+    if 'float' in kinds:
+        return ['2.5', '0.5', '2.5', '2']
+    return ['1j', '2.5']
+
+
+def F(i, default=None, kwonly=False):
+    return {'k': 'F', 'i': i, 'name': 'xy'[i], 'default': default, 'kwonly': kwonly}
+
+
+def P(j, ctype='', default=None, kwonly=False):
+    return {'k': 'P', 'name': 'p%d' % j, 'ctype': ctype, 'default': default, 'kwonly': kwonly}
+
+
+def shape_cells(S, cat, rng):
+    """systematic cells of the signature-shape class for one fused type: where the non-fused parameters stand relative
+    to the fused one(s) x which of them have default values x keyword-only. -> [(params, shape, forms)]"""
+    fd = fused_default_choices(S, cat)
+    if not fd:
+        return []
+    d = lambda: rng.choice(fd)
+    pt = lambda: rng.choice(['', '', 'double', 'long', 'str'])
+    pdef = lambda t: rng.choice(PLAIN_DEFAULTS[t])
+    cells = []
+    t = pt(); cells.append(([0], [P(0, t), F(0, d())], ['def']))
+    t = pt(); cells.append(([0], [P(0, t, pdef(t)), F(0, d())], ['def', 'cpdef']))
+    t = pt(); cells.append(([0], [F(0, d()), P(0, t, pdef(t))], ['def']))
+    t = pt(); cells.append(([0], [F(0), P(0, t, pdef(t))], ['cpdef']))
+    t, u = pt(), pt(); cells.append(([0], [P(0, t, pdef(t)), P(1, u, pdef(u)), F(0, d())], ['def']))
+    t, u = pt(), pt(); cells.append(([0], [P(0, t, pdef(t)), F(0, d()), P(1, u, pdef(u), True)], ['def']))
+    t = pt(); cells.append(([0], [P(0, t, pdef(t)), F(0, d(), True)], ['def']))
+    t = pt(); cells.append(([0, 0], [F(0), P(0, t, pdef(t)), F(1, d())], ['def']))
+    t = pt(); cells.append(([0, 0], [F(0, d()), P(0, t, pdef(t)), F(1, d())], ['cpdef']))
+    return cells
+
+
+def gen_shape(rng, sets, params, cat, form):
+    items = [F(i) for i in range(len(params))]
+    for j in range(rng.choice([0, 1, 1, 2])):
+        items.insert(rng.randint(0, len(items)), P(j, rng.choice(['', '', 'double', 'long', 'str'])))
+    n = len(items)
+    choices = [fused_default_choices(sets[params[it['i']]], cat) if it['k'] == 'F' else PLAIN_DEFAULTS[it['ctype']] for it in items]
+    kw_from = rng.randint(1, n) if form == 'def' and rng.random() < 0.25 else n
+    first_def = min(rng.choice([0, 0, 0, 1, 1, 2, n]), n)
+    # positional parameters without a possible default value push the start of the defaults to the right
+    for idx in range(min(kw_from, n)):
+        if not choices[idx]:
+            first_def = max(first_def, idx + 1)
+    for idx, it in enumerate(items):
+        it['kwonly'] = idx >= kw_from
+        if choices[idx] and (idx >= first_def if idx < kw_from else rng.random() < 0.6):
+            it['default'] = rng.choice(choices[idx])
+    return items
+
+
 def gen_decls(ck, rng):
     decls = []
     n = 0
@@ -149,6 +248,16 @@ def gen_decls(ck, rng):
                 continue
             decls.append(Decl(n, [list(S)], [0], cat, form))
             n += 1
+    # every cell of the signature-shape class on a few fused sets (seed-dependent parameter types and default values)
+    srng = ck.rng('shapes')
+    shape_sets = [FIXED[6], FIXED[5]] + ck.pick([], [FIXED[0], FIXED[2], FIXED[8], FIXED[11]])
+    for si, (S, cat) in enumerate(shape_sets):
+        for ci, (params, shape, forms) in enumerate(shape_cells(S, cat, srng)):
+            if ck.quick and (ci + ck.seed) % 2 != si:
+                continue        # quick: every cell once, alternating between the two fused sets
+            for form in forms:
+                decls.append(Decl(n, [list(S)], list(params), cat, form, shape=[dict(it) for it in shape]))
+                n += 1
     want = ck.pick(40, 280)
     nmv = 0
     while want > 0:
@@ -169,9 +278,10 @@ def gen_decls(ck, rng):
         form = rng.choice(['def', 'def', 'cpdef', 'cdef'])
         if form == 'cdef' and (two or cat != 'num' or 'object' in sets[0]):
             form = 'def'
-        if form == 'cpdef' and cat == 'obj' and False:
-            form = 'def'
-        decls.append(Decl(n, sets, params, cat, form))
+        shape = None
+        if form != 'cdef' and rng.random() < 0.4:
+            shape = gen_shape(rng, sets, params, cat, form)
+        decls.append(Decl(n, sets, params, cat, form, shape=shape))
         n += 1
         want -= 1
     return decls
@@ -210,11 +320,52 @@ def RO(a):
 '''
 
 
+def arg_pools(cat):
+    return {'num': INT_ARGS * 2 + FLT_ARGS * 2 + CPX_ARGS + OBJ_ARGS + buf_args()[:4],
+            'obj': OBJ_ARGS * 3 + INT_ARGS[:6] + FLT_ARGS[:3] + CPX_ARGS[:1] + buf_args()[:2],
+            'mv': buf_args() * 2 + OBJ_ARGS[:2] + ['5', '1.5', 'None', '[1, 2]']}[cat]
+
+
+def call_texts(pos, kw):
+    """(args tuple text, kwargs dict text, call argument text) of one call form"""
+    return ('(%s)' % ''.join(v + ', ' for v in pos), '{%s}' % ', '.join('%r: %s' % kv for kv in kw),
+            ', '.join(list(pos) + ['%s=%s' % kv for kv in kw]))
+
+
+def call_form(decl, rng, fused_value, bad=True, all_given=False):
+    """one way of calling a function with signature decl.shape: every parameter is passed by position, by keyword or
+    (if it has a default value) left out; rarely (bad) a required one is left out or a surplus positional is added.
+    Non-fused parameters always get a value of their declared type. -> (positional value texts, [(name, value text)], cell name)"""
+    pos, kw = [], []
+    positional_ok = True
+    plain_default_before = False
+    cell = []
+    for it in decl.shape:
+        val = fused_value(it) if it['k'] == 'F' else rng.choice(PLAIN_VALUES[it['ctype']])
+        has_def = it['default'] is not None
+        r = rng.random()
+        if (has_def and r < 0.45 and not all_given) or (not has_def and bad and r < 0.02):
+            positional_ok = False
+            if it['k'] == 'F' and has_def:
+                cell.append('fused-default-used' + ('-after-defaulted-plain' if plain_default_before else ''))
+        elif positional_ok and not it['kwonly'] and r < 0.8:
+            pos.append(val)
+        else:
+            kw.append((it['name'], val))
+            positional_ok = False
+            if it['k'] == 'F':
+                cell.append('fused-by-keyword')
+        if it['k'] == 'P' and has_def:
+            plain_default_before = True
+    if bad and positional_ok and rng.random() < 0.03:
+        pos.append('1')
+        cell.append('surplus-positional')
+    return pos, kw, '+'.join(sorted(set(cell))) or 'all-positional'
+
+
 def args_for(decl, rng, nargs):
     """list of argument-tuple expression texts"""
-    pools = {'num': INT_ARGS * 2 + FLT_ARGS * 2 + CPX_ARGS + OBJ_ARGS + buf_args()[:4],
-             'obj': OBJ_ARGS * 3 + INT_ARGS[:6] + FLT_ARGS[:3] + CPX_ARGS[:1] + buf_args()[:2],
-             'mv': buf_args() * 2 + OBJ_ARGS[:2] + ['5', '1.5', 'None', '[1, 2]']}[decl.cat]
+    pools = arg_pools(decl.cat)
     out = []
     if len(decl.params) == 1:
         pool = sorted(set(pools))
@@ -258,14 +409,31 @@ def gen_cases(ck, decl, rng):
                 a = valid_arg_for_type(t, rng) if rng.random() < 0.7 else rng.choice(INT_ARGS if c34ref.NUM[t][0] == 'int' else INT_ARGS[:8] + (FLT_ARGS[2:4] if c34ref.NUM[t][0] == 'complex' else FLT_ARGS[:4]))
                 cases.append({'f': decl.caller(t), 'a': '(%s,)' % a, 't': 'cdef-static/%s' % decl.cat, 'd': decl.n, 'mode': 'static'})
         return cases
-    for a in args_for(decl, rng, nargs):
-        cases.append({'f': decl.name, 'a': a, 't': '%s/%s/%dp' % (decl.form, decl.cat, len(decl.params)), 'd': decl.n, 'mode': 'call'})
+    if decl.shape:
+        pools = arg_pools(decl.cat)
+        for _ in range(ck.pick(26, 90)):
+            pos, kw, cell = call_form(decl, rng, lambda it: rng.choice(pools))
+            a, k, _ = call_texts(pos, kw)
+            cases.append({'f': decl.name, 'a': a, 'k': k, 't': '%s/%s/%dp/shaped' % (decl.form, decl.cat, len(decl.params)), 'd': decl.n,
+                          'mode': 'call', 'cell': cell})
+    else:
+        for a in args_for(decl, rng, nargs):
+            cases.append({'f': decl.name, 'a': a, 't': '%s/%s/%dp' % (decl.form, decl.cat, len(decl.params)), 'd': decl.n, 'mode': 'call'})
     # explicit indexing: every specialisation once by string names, some by cython.<type> objects, some wrong indices
     order, combos = decl.signatures()
     for combo in combos[:ck.pick(12, 40)]:
         bytype = dict(zip(order, combo))
         args = ', '.join(valid_arg_for_type(bytype[p], rng) for p in decl.params)
         idx = ', '.join(repr(t) for t in combo)
+        if decl.shape:
+            # the same specialisation called with its arguments by position / by keyword / left to the default values
+            for rep in range(2):
+                pos, kw, cell = call_form(decl, rng, lambda it: valid_arg_for_type(bytype[decl.params[it['i']]], rng), bad=False,
+                                          all_given=(rep == 0))
+                text = call_texts(pos, kw)[2]
+                cases.append({'x': 'M.%s[%s](%s)' % (decl.name, idx, text), 't': 'index-str/%s/shaped' % decl.cat, 'd': decl.n,
+                              'mode': 'index', 'sig': '|'.join(combo), 'cell': cell})
+            continue
         cases.append({'x': 'M.%s[%s](%s)' % (decl.name, idx, args), 't': 'index-str/%s' % decl.cat, 'd': decl.n, 'mode': 'index',
                       'sig': '|'.join(combo)})
         if all(t in c34ref.NUM and ' ' not in t for t in combo) and rng.random() < 0.5:
@@ -277,7 +445,7 @@ def gen_cases(ck, decl, rng):
                           'd': decl.n, 'mode': 'index-undocumented', 'sig': '|'.join(combo)})
     wrong = [t for t in INT_T + FLT_T + ['str', 'int[:]'] if t not in decl.sets[0]][:2]
     for t in wrong:
-        args = ', '.join('1' for _ in decl.params)
+        args = ', '.join('1' for _ in (decl.shape or decl.params))
         idx = ', '.join([repr(t)] * len(order))
         cases.append({'x': 'M.%s[%s](%s)' % (decl.name, idx, args), 't': 'index-wrong/%s' % decl.cat, 'd': decl.n, 'mode': 'index-wrong'})
     return cases
@@ -405,6 +573,33 @@ def judge(decl, case, exp, got):
     if mode in ('index', 'static'):
         return '%s:%s:%s->%s' % (mode, decl.cat, ek, gk)
     args = eval_args(case['a'])
+    plain_want = []
+    shape_note = ''
+    if decl.shape:
+        # bind the call to the signature as Python does: the value bound to a fused parameter (passed by position or by
+        # keyword, or its default value) is what the dispatch rules are applied to
+        try:
+            bound, defaulted = c34ref.bind(decl.shape, args, eval_args(case.get('k') or '{}'))
+        except TypeError:
+            return None if got[0] == 'exc' else 'call:%s:call-not-fitting-the-signature-accepted' % decl.form
+        args = [bound[n] for _, n in sorted((it['i'], it['name']) for it in decl.shape if it['k'] == 'F')]
+        plain_want = [c34ref.plain_value(it['ctype'], bound[it['name']]) for it in decl.shape if it['k'] == 'P']
+        if any(it['k'] == 'F' and it['name'] in defaulted for it in decl.shape):
+            before = False
+            for it in decl.shape:
+                if it['k'] == 'F' and it['name'] in defaulted:
+                    break
+                before = before or (it['k'] == 'P' and it['default'] is not None)
+            shape_note = ':fused-argument-from-default' + ('-after-defaulted-non-fused-parameter' if before else '')
+        else:
+            shape_note = ':signature-with-non-fused-parameters-or-defaults'
+    key = _judge_call(decl, case, exp, got, args, plain_want, ek, gk)
+    if key in (KEY_SIGNED, KEY_PARTIAL, KEY_PARTIAL_FLOAT):
+        return key      # mechanisms of the type ordering, independent of how the value reached the fused parameter
+    return key + shape_note if key else None
+
+
+def _judge_call(decl, case, exp, got, args, plain_want, ek, gk):
     per = {}
     for p, a in zip(decl.params, args):
         if p not in per:
@@ -473,6 +668,8 @@ def judge(decl, case, exp, got):
         if decl.cat != 'obj' or chosen[p] != 'object':
             if want != vs:
                 return 'value:%s:differs-from-generic-source' % decl.cat
+    if [vsig.sig(v) for v in plain_want] != list(vals[len(decl.params):]):
+        return 'value:non-fused-parameter:differs-from-generic-source'
     return None
 
 
@@ -500,6 +697,7 @@ def main(ck):
         ctext = open(inf['c'], encoding='utf-8', errors='replace').read()
         anchors += len(re.findall(r'__pyx_fused_cpdef', ctext))
     runs = []
+    sig_cells = {}
     for gi, g in enumerate(groups):
         name = 'c34m%d' % gi
         if not info[name]['ok']:
@@ -513,6 +711,9 @@ def main(ck):
             cases += gen_cases(ck, d, crng)
         for i, c in enumerate(cases):
             c['id'] = i
+            if c.get('cell'):
+                ck2 = '%s:%s' % (c['mode'], c['cell'])
+                sig_cells[ck2] = sig_cells.get(ck2, 0) + 1
         runs.append((name, rp, cases))
 
     from concurrent.futures import ThreadPoolExecutor
@@ -579,6 +780,9 @@ def main(ck):
     ck.cov['specialisations_not_selected'] = not_selected[:40]
     ck.inconclusive_if(skipped > 0, '%d module build(s) failed' % skipped)
     ck.inconclusive_if(anchors < 1, '__pyx_fused_cpdef absent from the generated C')
+    need = 'call:fused-default-used-after-defaulted-plain'
+    ck.inconclusive_if(not any(k.startswith(need) for k in sig_cells) and skipped == 0,
+                       'no run-time dispatch on the default value of a fused parameter that follows a defaulted non-fused parameter')
     ck.inconclusive_if(nspec and len(not_selected) > nspec // 5, 'more than 20%% of the specialisations were never selected (%d of %d)'
                        % (len(not_selected), nspec))
     return ck.finish(
@@ -589,6 +793,7 @@ def main(ck):
         samples,
         extra={'declarations': len(decls), 'by_form': {f: sum(1 for d in decls if d.form == f) for f in ('def', 'cpdef', 'cdef')},
                'by_category': {c: sum(1 for d in decls if d.cat == c) for c in ('num', 'obj', 'mv')},
+               'shaped_declarations': sum(1 for d in decls if d.shape), 'signature_call_cells': dict(sorted(sig_cells.items())),
                'fused_cpdef_mentions_in_C': anchors, 'specialisations_indexed': nspec,
                'alternatives_accepted_where_docs_do_not_decide': dict(sorted(alt_accepted.items())),
                'cells': dict(sorted(cells.items())), 'outcome_classes': outcomes},
@@ -598,13 +803,15 @@ def main(ck):
                      'fused type, subclasses of str/bytes/list/dict, None, NumPy scalars, buffers that match in dtype but cannot be acquired) any '
                      'specialisation that can represent the value, or the listed exception classes, is accepted and counted',
                      'a comma-joined index string ("int, double") is undocumented: KeyError/TypeError or the named specialisation accepted',
+                     'a fused parameter that is left out of the call is dispatched on its default value (the value bound to the parameter), '
+                     'whatever other parameters and default values the signature has',
                      'exception messages are not compared'])
 
 
 def witness(d, case, exp, got, stderr=None):
     src = '# cython: language_level=3\ncimport cython\n\ncdef class K:\n    pass\n\n' + d.pyx()
     ref = 'from vlib.ref.c34ref import RefFused, RefTyped\n\n\nclass K:\n    pass\n\n\n' + d.ref()
-    w = {'module_source': src, 'ref_source': ref, 'ext': '.pyx', 'case': {k: v for k, v in case.items() if k in ('f', 'a', 'x', 't')},
+    w = {'module_source': src, 'ref_source': ref, 'ext': '.pyx', 'case': {k: v for k, v in case.items() if k in ('f', 'a', 'k', 'x', 't')},
          'expected': exp, 'observed': got, 'setup': SETUP, 'cflags': [], 'directives': {}, 'fused_sets': d.sets, 'form': d.form,
          'note': 'replay compares with the canonical model choice; alternatives the documentation allows are judged by props/C34.judge'}
     if stderr:
